@@ -18,6 +18,7 @@ Observed (the abstract `fault` variable): crash / ASan report / hang / leak, and
 returned count <= requested count, reported consumed <= declared input length.
 Level: exploration.
 """
+import os
 import random
 
 from vlib import common
@@ -197,7 +198,8 @@ def run_part(chk, tier):
     binary = common.build_harness(E.HARNESS)
     thorough = tier != "quick"
     r = common.run_tlc("MC_EncFuzz", constants_text=E.cfg_text({"Thorough": "TRUE" if thorough else "FALSE"}),
-                       workers=None, timeout=3000 if thorough else 600)
+                       workers=int(os.environ["VERIF_TLC_CAP"]) if os.environ.get("VERIF_TLC_CAP") else None,
+                       timeout=3000 if thorough else 600)
     if r.error or r.rc != 0:
         raise InfraError("MC_EncFuzz failed rc=%s\n%s" % (r.rc, r.out[-2500:]))
     chk.add_tlc(r)
